@@ -161,6 +161,19 @@ def r17_3(run):
                    message='listen(): if "%s" fails, the function exits without stopListening() on the port it bound to '
                            '127.0.0.1:0 - the listener leaks' % src(fp.ast)[:50], path=wit)
     run.floor('R17.3', 'failure points after the bind', k, 1)
+    # the release must not sit behind other cleanup that can itself fail: from the handler entry the
+    # release is reached without passing a loop or a call on any other object
+    for h in [n for n in g.live if n.kind == 'handler']:
+        body_reach = g.reachable([s_ for _, s_ in h.succ])
+        rel = [n for n in body_reach if releases(n)]
+        if not rel:
+            continue
+        before = g.reachable([s_ for _, s_ in h.succ], avoid=releases)
+        risky = [n for n in before if n.kind == 'iter' or (n.kind in ('stmt', 'test') and any(
+            isinstance(a, ast.Call) and not releases(n) and (dotted(a.func) or '').split('.')[-1] not in ('msg', 'err', 'maybeDeferred') for a in node_asts(n)))]
+        run.ob('R17.3', li, h.ast, 'the listener is released before any other cleanup that may itself fail', not risky, slot='release-first',
+               message='in the failure handler %s runs before stopListening(): if it raises, listen() fails with that error and '
+                       'the listener is never closed' % [src(n.ast)[:50] if n.kind != 'iter' else 'for ' + src(n.ast.target) for n in risky][:2])
     # the released object is the acquired port
     for n in g.real_nodes():
         for a in node_asts(n):
